@@ -20,7 +20,7 @@ type c11Gen struct {
 	// feature switches for classes that are recorded findings
 	allowOperatorCallArgs bool
 	allowEmptyIf          bool
-	allowNestedRefInDeferred bool
+	allowTermsAfterBlock  bool // inside deferred (While) blocks
 }
 
 var c11Predefined = []string{"_GPE", "_PR_", "_SB_", "_SI_", "_TZ_"}
@@ -245,6 +245,9 @@ func (g *c11Gen) transformObj(o amlObj, topOut *[]amlObj, atTop bool) []amlObj {
 			// itself that targets a sibling container (single segment, upward search)
 			keep = append(keep, g.transformObj(ch, topOut, false)...)
 		default:
+			if movable && choice <= 1 && !c11Hoistable(scopeAbs) {
+				vlib.For("C11").Exclude("F-C11a path through a Device-like scope would be needed; object kept lexically nested")
+			}
 			keep = append(keep, g.transformObj(ch, topOut, false)...)
 		}
 	}
@@ -334,13 +337,13 @@ func (g *c11Gen) fillBodies(objs []amlObj, table int, syms []c11Sym) {
 					datas = append(datas, s)
 				}
 			}
-			o.Stmts = g.stmts(o, methods, datas, 0)
+			o.Stmts = g.stmts(o, methods, datas, 0, false)
 		}
 		g.fillBodies(o.Body, table, syms)
 	}
 }
 
-func (g *c11Gen) stmts(m *amlObj, methods, datas []c11Sym, depth int) []amlStmt {
+func (g *c11Gen) stmts(m *amlObj, methods, datas []c11Sym, depth int, inDeferred bool) []amlStmt {
 	n := rapid.IntRange(0, 4).Draw(g.t, "nstmts")
 	var out []amlStmt
 	for i := 0; i < n; i++ {
@@ -373,7 +376,7 @@ func (g *c11Gen) stmts(m *amlObj, methods, datas []c11Sym, depth int) []amlStmt 
 			c := g.cmp(m, methods, datas)
 			s.E = &c
 			s.W = g.width()
-			s.Body = g.stmts(m, methods, datas, depth+1)
+			s.Body = g.stmts(m, methods, datas, depth+1, inDeferred)
 			if len(s.Body) == 0 && !g.allowEmptyIf {
 				vlib.For("C11").Exclude("F-C11c If with an empty body given one statement")
 				s.Body = []amlStmt{{K: "inc", T: g.target(false)}}
@@ -381,16 +384,30 @@ func (g *c11Gen) stmts(m *amlObj, methods, datas []c11Sym, depth int) []amlStmt 
 			if rapid.Bool().Draw(g.t, "else") {
 				s.Has = true
 				s.W2 = g.width()
-				s.Else = g.stmts(m, methods, datas, depth+1)
+				s.Else = g.stmts(m, methods, datas, depth+1, inDeferred)
 			}
 		case "while":
 			g.stats.deferred++
 			c := g.cmp(m, methods, datas)
 			s.E = &c
 			s.W = g.width()
-			s.Body = g.stmts(m, methods, datas, depth+1)
+			s.Body = g.stmts(m, methods, datas, depth+1, true)
 		}
 		out = append(out, s)
+	}
+	if inDeferred && !g.allowTermsAfterBlock {
+		// F-C11e: inside a deferred block the parser drops whatever follows a nested
+		// package-bearing term (including the Else of an If): keep such terms last
+		for i := range out {
+			blk := out[i].K == "if" || out[i].K == "while"
+			if blk && i != len(out)-1 {
+				vlib.For("C11").Exclude("F-C11e If/While followed by further terms inside a While body replaced")
+				out[i] = amlStmt{K: "inc", T: g.target(false)}
+			} else if blk && out[i].Has {
+				vlib.For("C11").Exclude("F-C11e Else inside a While body dropped")
+				out[i].Has, out[i].Else = false, nil
+			}
+		}
 	}
 	return out
 }
@@ -529,7 +546,11 @@ func TestVerifC11(t *testing.T) {
 	st := vlib.For("C11")
 	defer vlib.Flush()
 	rapid.Check(t, func(t *rapid.T) {
-		g := &c11Gen{t: t}
+		g := &c11Gen{t: t,
+			allowOperatorCallArgs: !vlib.OpenFinding("F-C11b"),
+			allowEmptyIf:          !vlib.OpenFinding("F-C11c"),
+			allowTermsAfterBlock:  !vlib.OpenFinding("F-C11e"),
+		}
 		c := g.program()
 		fail, _ := c11Run(c)
 		var labels []string
